@@ -2,7 +2,10 @@
 
 package json
 
-import "github.com/goccy/go-json/internal/decoder"
+import (
+	"github.com/goccy/go-json/internal/decoder"
+	"github.com/goccy/go-json/internal/encoder"
+)
 
 // Verification exports (build tag "verif"): the verification harness is a separate module and
 // cannot import internal packages.
@@ -13,3 +16,9 @@ type VerifStreamEvent = decoder.VerifStreamEvent
 // VerifSetStreamTracer installs (or, with nil, removes) the stream-window tracer.
 // Not safe for concurrent use with running decoders.
 func VerifSetStreamTracer(f func(VerifStreamEvent)) { decoder.VerifStreamTracer = f }
+
+// VerifSlotEvent is one recorded access to the encoder's scratch slots.
+type VerifSlotEvent = encoder.VerifSlotEvent
+
+// VerifSetSlotTracer installs (or, with nil, removes) the encoder slot tracer (single goroutine only).
+func VerifSetSlotTracer(f func(VerifSlotEvent)) { encoder.VerifSlotTracer = f }
